@@ -508,6 +508,47 @@ func TestVerifC12Twin(t *testing.T) {
 				out.Emit(c12Event{Ev: "Custom", Beh: beh, What: fmt.Sprintf("%s custom v%d", p.id, p.custom), Errs: []string{}})
 			}
 		}
+		// a profile whose custom rules are updated while a request that still carries the previous snapshot of
+		// the profile is having its (large) custom filter compiled: the request with the new snapshot is
+		// filtered by the new rules
+		for k := 0; k < 3; k++ {
+			base := *profs[k%len(profs)].conf
+			mk := func(ver int, block bool) *filter.ConfigClient {
+				rules := make([]filter.RuleText, 0, 6001)
+				for j := 0; j < 6000; j++ {
+					rules = append(rules, filter.RuleText(fmt.Sprintf("||filler-%d-%d-%d.c12.example^", ver, k, j)))
+				}
+				if block {
+					rules = append(rules, "||race.c12.example^")
+				}
+				c := base
+				c.Custom = &filter.ConfigCustom{ID: fmt.Sprintf("c12race%d_%d", beh, k), UpdateTime: time.Unix(1_700_000_000, int64(ver)*1000),
+					Rules: rules, Enabled: true}
+				return &c
+			}
+			oldConf, newConf := mk(1, k%2 == 0), mk(2, k%2 == 1)
+			ask := func(st *Default, conf *filter.ConfigClient) (a string) {
+				defer func() {
+					if v := recover(); v != nil {
+						a = fmt.Sprintf("panic|%v", v)
+					}
+				}()
+				req := new(dns.Msg).SetQuestion("race.c12.example.", dns.TypeA)
+				res, ferr := st.ForConfig(ctx, conf).FilterRequest(ctx, &filter.Request{DNS: req, Messages: profs[0].msgs,
+					RemoteIP: netip.MustParseAddr("192.0.2.9"), ClientName: "dev-race", Host: "race.c12.example", QType: dns.TypeA, QClass: dns.ClassINET})
+				return c12AbsResult(req, res, ferr)
+			}
+			var wg sync.WaitGroup
+			wg.Add(1)
+			go func() { defer wg.Done(); _ = ask(cached.s, oldConf) }()
+			time.Sleep(time.Duration(500+rng.Intn(2500)) * time.Microsecond)
+			got := ask(cached.s, newConf)
+			wg.Wait()
+			plain.mgr.clearAll()
+			want := ask(plain.s, newConf)
+			out.Emit(c12Event{Ev: "Query", Beh: beh, Q: c12Query{Prof: "race", Host: "race.c12.example", QType: dns.TypeA}, Errs: []string{},
+				Cached: got, Plain: want, CachedR: "n/a", PlainR: "n/a"})
+		}
 		srv.Close()
 	}
 }
